@@ -68,7 +68,8 @@ func flight2Parse(
 	if dtlsAlert, err := applyClientHelloExtensions(state, cfg, clientHello); err != nil {
 		return 0, dtlsAlert, err
 	}
-	if state.NamedCurve != curve {
+	// flight0Parse leaves the key pair to this point, after the cookie check.
+	if state.NamedCurve != curve || (state.LocalKeypair == nil && state.NamedCurve != 0) {
 		keypair, err := elliptic.GenerateKeypair(state.NamedCurve)
 		if err != nil {
 			return 0, &alert.Alert{Level: alert.Fatal, Description: alert.IllegalParameter}, err
